@@ -24,15 +24,50 @@ BUDGET = {"quick": (320, 4), "thorough": (6400, 16)}
 
 @st.composite
 def step(draw):
-    k = draw(st.sampled_from(["dumps", "call", "call", "graph", "graph", "match", "match", "read", "mutate", "mutate"]))
+    k = draw(st.sampled_from(["dumps", "call", "call", "graph", "graph", "match", "match", "match01", "read", "mutate", "mutate"]))
     return {"k": k, "i": draw(st.integers(0, 7)), "j": draw(st.integers(0, 7)), "how": draw(st.integers(0, 10)),
             "vals": draw(st.lists(st.floats(min_value=-3, max_value=3, allow_nan=False).filter(lambda x: abs(x) > 0.01), min_size=1, max_size=5))}
+
+
+@st.composite
+def tdm_pair(draw):
+    """(template text, program text): a tdm template with bare {x} arguments and a tdm program with the same operations
+    whose arguments are p-arrays -- match_template succeeds on such a pair and returns the arrays."""
+    n = draw(st.integers(1, 4))
+    t_lines, p_lines, decls = [], [], []
+    k = 0
+    for i in range(n):
+        op = draw(st.sampled_from(["Sgate", "Rgate", "BSgate", "MeasureFock"]))
+        modes = draw(st.lists(st.integers(0, 3), min_size=1, max_size=2, unique=True))
+        ta, pa = [], []
+        for _ in range(draw(st.integers(0, 2))):
+            if draw(st.booleans()):
+                ta.append("{x%d}" % k)
+                pa.append("p%d" % k)
+                decls.append("float array p%d =\n    %s" % (k, ", ".join(str(draw(st.sampled_from([0.1, 0.25, 1.5, 2.0]))) for _ in range(2))))
+                k += 1
+            else:
+                v = str(draw(st.sampled_from([0.0, 0.5, 1.25])))
+                ta.append(v)
+                pa.append(v)
+        m = "[%s]" % ", ".join(map(str, modes))
+        t_lines.append("%s(%s) | %s" % (op, ", ".join(ta), m))
+        p_lines.append("%s(%s) | %s" % (op, ", ".join(pa), m))
+    if k == 0:
+        t_lines.append("Rgate({x0}) | 0")
+        p_lines.append("Rgate(p0) | 0")
+        decls.append("float array p0 =\n    0.5, 0.75")
+    head = "name tdmpair\nversion 1.0\ntarget TD2 (shots=1)\ntype tdm (temporal_modes=2)\n"
+    return head + "\n".join(t_lines) + "\n", head + "\n".join(decls) + "\n" + "\n".join(p_lines) + "\n"
 
 
 @st.composite
 def case(draw, tier):
     big = tier != "quick"
     scripts = []
+    if draw(st.integers(0, 2)) == 0:
+        t, p = draw(tdm_pair())
+        scripts.extend([{"text": t}, {"text": p}])
     scripts.append(draw(S.script(S.Cfg(max_items=6, depth=1, params=True, sym_vars=draw(st.booleans()), regs=draw(st.booleans())))))
     for _ in range(draw(st.integers(0, 2))):
         scripts.append(draw(S.script(S.Cfg(max_items=6, depth=1, regs=draw(st.booleans()), params=draw(st.booleans())))))
@@ -122,6 +157,9 @@ def check(c):
     from blackbird.utils import to_DiGraph, match_template
     texts = []
     for sc in c["scripts"]:
+        if isinstance(sc, dict) and "text" in sc:
+            texts.append(sc["text"])
+            continue
         try:
             texts.append(render.render(sc))
         except render.RenderError as e:
@@ -159,6 +197,13 @@ def check(c):
             elif k == "graph":
                 to_DiGraph(p)
                 did.add("graph")
+            elif k == "match01" and len(pool) > 1:
+                try:
+                    match_template(pool[0][0], pool[1][0])
+                except Exception:
+                    pass
+                did.add("match")
+                note = "match(0,1)"
             elif k == "match":
                 try:
                     match_template(p, pool[j][0])
